@@ -25,7 +25,7 @@ PROG = ["        NAM PROG", "        ORG $0E00", "START   LDA #1", "        RTS"
 PROG_BYTES = bytes([0x86, 0x01, 0x39])
 SRC_FILE = c07.fspec("ML", 40, "SRCFILE", pat="ramp7", load=0x3000, exec_=0x3005)
 
-TARGETS = ["absent", "empty", "cas1", "cas2", "dskblank", "dsk1", "rawbin", "bytes", "bytes553c", "casbig", "zeros", "all55", "allFF", "casodd", "dsk67", "dskholes", "dskemptyml", "casbig00", "dsktext", "bintapey", "dskexact"]
+TARGETS = ["absent", "empty", "cas1", "cas2", "dskblank", "dsk1", "rawbin", "bytes", "bytes553c", "casbig", "zeros", "all55", "allFF", "casodd", "dsk67", "dskholes", "dskemptyml", "casbig00", "dsktext", "bintapey", "dskexact", "casnear00"]
 SWITCHES = ["bin", "cas", "dsk"]
 CLIS = ["asm", "fu.cas", "fu.dsk"]
 
@@ -59,6 +59,16 @@ def make_target(kind):
                                   for i, n in enumerate((first, 61440, 61440))]))
             if len(b) > dskfs.IMAGE_SIZE and all(x in (0x00, 0xFF) for x in b[dskfs.DIR_OFF:dskfs.DIR_OFF + 72 * 32:32]):
                 return b
+        raise AssertionError("no such tape")
+    if kind == "casnear00":   # the same kind of tape, but only a fraction of a sector longer than a disk image (161,281..161,535 bytes)
+        for first in range(61440, 61440 + 300):
+            for third in range(33000, 33600):
+                b = bytes(tape.write([dict(name="SCREEN{}".format(i), type=2, dtype=0, load=0x0E00, exec=0x0E00, data=bytes(n))
+                                      for i, n in enumerate((first, 61440, third))]))
+                if len(b) > dskfs.IMAGE_SIZE + 255:
+                    break
+                if len(b) > dskfs.IMAGE_SIZE and len(b) % 256 and all(x in (0x00, 0xFF) for x in b[dskfs.DIR_OFF:dskfs.DIR_OFF + 72 * 32:32]):
+                    return b
         raise AssertionError("no such tape")
     if kind == "bintapey":    # a raw program that carries tape block templates as data (a tape-writing utility): header and data block patterns, no EOF block
         return (bytes([0x8E, 0x10, 0x00, 0x39]) + bytes([0x55, 0x3C, 0x00, 0x0F]) + b"TAPEUTIL" + bytes([2, 0, 0, 0x0E, 0x00, 0x0E, 0x00, 0x3D, 0x55]) +
